@@ -48,7 +48,8 @@ type label struct {
 
 // the first four bodies are in the quick tier: plain name, rooted, directory-only, and a wildcard
 // followed by a negation of one of its matches (the last matching line of a file decides)
-var gitBodies = []string{"b.txt\n", "/a\n", "a/\n", "*.txt\n!b.txt\n", "*.txt\n", "# c\n\nb.txt"}
+// (the rooted pattern is written with CRLF line ends: git strips the CR, so must the scanner)
+var gitBodies = []string{"b.txt\n", "/a\r\n", "a/\n", "*.txt\n!b.txt\n", "*.txt\n", "# c\n\nb.txt", "/a\n", "*.txt\r\n!b.txt\r\n"}
 
 func labels(thorough bool) []label {
 	ls := []label{
@@ -389,6 +390,7 @@ func gitVerdict(rules []gitRule, p string, isDir bool) (ignored, dontcare bool) 
 func parseGit(base, body string) []gitRule {
 	var rs []gitRule
 	for _, l := range strings.Split(body, "\n") {
+		l = strings.TrimSuffix(l, "\r")
 		if strings.HasPrefix(l, "#") || strings.TrimSpace(l) == "" {
 			continue
 		}
@@ -1023,7 +1025,7 @@ func main() {
 	r.Set("bound", map[string]any{"max_nodes_completed": completedNodes, "max_option_deviations": maxDev, "extractor_sets": len(exSets)})
 	r.Assume("reference dispatch model (this file, ~200 lines) states git's .gitignore semantics for the 5-pattern alphabet and the skip rules of the property text")
 	r.Assume("regular-expression and glob *matching* are taken from the same libraries the implementation uses; only the dispatch logic is under test")
-	r.Finish(fmt.Sprintf("every tree with <=%d labelled nodes (names a, a.d, b.txt, 'd e', -x, .gitignore(6 bodies incl. a negation), pkg.json; dirs, files of size 0/1/5, exec bit, symlinks to file/dir/dangling, named pipe) x every option vector with <=%d deviations from the defaults (skip list, regex, glob, gitignore, requested paths incl. dir+file and '.', sub-dir cut-off, max size 1/5, symlinks, absolute paths, ReadDirFile on/off, virtual root vs. root with a host path and absolute skip/request paths) x %d extractor sets (quick: 2 of them on 4-node trees); Scanner.Scan over memfs vs reference dispatch model (trees <=3 nodes: scanned twice with the same configuration and plugin instances, second scan must equal the first); plus two virtual roots with different content (the tree and the tree without its top-level .gitignore / with other sizes, both orders) under every option vector with <=2 deviations, each root judged by the model on its own; plus one directory of W entries for every W<=%d and 2^k-1,2^k,2^k+1,1.5*2^k up to %d x 3 placements x 5 directory-listing behaviours (ReadDir, ReadDirFile full batches, short batches of 1/3/100); non-trivial = some option active and >=1 extraction expected", maxNodes, maxDev, len(exSets), ev.Pick(r, 40, 300), ev.Pick(r, 1024, 4096)), completedNodes == maxNodes)
+	r.Finish(fmt.Sprintf("every tree with <=%d labelled nodes (names a, a.d, b.txt, 'd e', -x, .gitignore(8 bodies incl. a negation and CRLF line ends; 4 in quick), pkg.json; dirs, files of size 0/1/5, exec bit, symlinks to file/dir/dangling, named pipe) x every option vector with <=%d deviations from the defaults (skip list, regex, glob, gitignore, requested paths incl. dir+file and '.', sub-dir cut-off, max size 1/5, symlinks, absolute paths, ReadDirFile on/off, virtual root vs. root with a host path and absolute skip/request paths) x %d extractor sets (quick: 2 of them on 4-node trees); Scanner.Scan over memfs vs reference dispatch model (trees <=3 nodes: scanned twice with the same configuration and plugin instances, second scan must equal the first); plus two virtual roots with different content (the tree and the tree without its top-level .gitignore / with other sizes, both orders) under every option vector with <=2 deviations, each root judged by the model on its own; plus one directory of W entries for every W<=%d and 2^k-1,2^k,2^k+1,1.5*2^k up to %d x 3 placements x 5 directory-listing behaviours (ReadDir, ReadDirFile full batches, short batches of 1/3/100); non-trivial = some option active and >=1 extraction expected", maxNodes, maxDev, len(exSets), ev.Pick(r, 40, 300), ev.Pick(r, 1024, 4096)), completedNodes == maxNodes)
 }
 
 func replay(r *ev.Run, p string) {
